@@ -105,14 +105,29 @@ func (m *Machine) hashSum(hname string, hfn func() gohash.Hash, data *Term) valu
 	if data.IsConst() && hfn != nil {
 		h := hfn()
 		h.Write([]byte(data.S))
-		return bytesValue(h.Sum(nil))
+		sum := h.Sum(nil)
+		if hashSumHookConcrete != nil {
+			hashSumHookConcrete(m, hname, data.S, sum)
+		}
+		return bytesValue(sum)
 	}
 	r := mkUF(smtIdent("u_hash_", hname), SStr, data)
 	if n, ok := hashSizes[hname]; ok {
 		m.assume(mkEq(mkLen(r), mkInt(n)))
 	}
+	if hashSumHookSymbolic != nil {
+		hashSumHookSymbolic(m, hname, data, r)
+	}
 	return absBytes{r}
 }
+
+// hooks (installed by intr_x_agentD.go): link natively computed and symbolic applications
+var (
+	hashSumHookConcrete func(m *Machine, hname string, data string, sum []byte)
+	hashSumHookSymbolic func(m *Machine, hname string, data, r *Term)
+	b64HookConcrete     func(m *Machine, fname string, in []byte, out string)
+	b64HookSymbolic     func(m *Machine, fname string, x, r *Term)
+)
 
 func init() {
 	reg("io.ReadFull", func(fr *frame, a []value) value {
@@ -375,17 +390,25 @@ func b64Name(e *base64.Encoding) string {
 func b64Encode(fr *frame, a []value) value {
 	e := a[0].(native).v.(*base64.Encoding)
 	if b, ok := concreteBytes(a[1]); ok {
-		return e.EncodeToString(b)
+		out := e.EncodeToString(b)
+		if b64HookConcrete != nil {
+			b64HookConcrete(fr.i.m, b64Name(e), b, out)
+		}
+		return out
 	}
 	m := fr.i.m
 	x := bytesTerm(a[1])
 	n := b64Name(e)
 	r := mkUF(n, SStr, x)
+	if b64HookSymbolic != nil {
+		b64HookSymbolic(m, n, x, r)
+	}
 	// decode inverts encode; the output alphabet has no separators
 	m.assume(mkEq(mkUF(n+"_dec", SStr, r), x))
 	m.assume(mkUF(n+"_ok", SBool, r))
 	m.assume(mkNot(mkContains(r, mkStr("."))))
 	m.assume(mkEq(mkEq(r, mkStr("")), mkEq(x, mkStr(""))))
+	b64EncodeAxioms(m, e, n, x, r) // agentF1: exact alphabet/length, decode injectivity
 	return r
 }
 
@@ -401,9 +424,11 @@ func b64Decode(fr *frame, a []value) value {
 	m := fr.i.m
 	s := strArg(a[1])
 	n := b64Name(e)
+	b64DecodeAxioms(m, e, n, s, mkUF(n+"_ok", SBool, s)) // agentF1: decodability is a regular language
 	if !m.decide(mkUF(n+"_ok", SBool, s)) {
 		return tuple{[]value(nil), mkSymErr("base64.CorruptInputError", "illegal base64 data")}
 	}
+	b64DecodedAxioms(m, e, n, s, mkUF(n+"_dec", SStr, s)) // agentF1
 	return tuple{absBytes{mkUF(n+"_dec", SStr, s)}, iface{}}
 }
 
